@@ -1,4 +1,6 @@
 import OtelVerif.Model.C07
+import OtelVerif.Lemmas.C07
+import OtelVerif.Lemmas.C07Map
 import OtelVerif.Gen.PdataCensus
 /-!
 # C07 — data-model copy, move, remove and read-only operations have value semantics
@@ -36,31 +38,6 @@ theorem map_upd_nodup (f : Nat → Nat) (o v : Nat) (l : List Nat) (i : Nat) (hn
       have ho : o ∈ xs := List.mem_of_getElem? hi
       have : x ≠ o := fun e => hx.1 (e ▸ ho)
       simp [upd_other f o x v this, ih j hx.2 hi]
-
-theorem keep_sublist {α : Type} (l : List α) (m : List Bool) : (keep l m).Sublist l := by
-  induction l generalizing m with
-  | nil => simp [keep]
-  | cons x xs ih =>
-    cases m with
-    | nil => simp [keep]
-    | cons b bs =>
-      cases b
-      · simpa [keep] using (ih bs).cons_cons x
-      · simpa [keep] using (ih bs).cons x
-
-theorem map_keep {α β : Type} (f : α → β) (l : List α) (m : List Bool) : (keep l m).map f = keep (l.map f) m := by
-  induction l generalizing m with
-  | nil => simp [keep]
-  | cons x xs ih =>
-    cases m with
-    | nil => simp [keep]
-    | cons b bs => cases b <;> simp [keep, ih]
-
-/-- with a predicate on the element, `keep` is `filter` of the negation -/
-theorem keep_map_pred {α : Type} (p : α → Bool) (l : List α) : keep l (l.map p) = l.filter (fun x => !p x) := by
-  induction l with
-  | nil => simp [keep]
-  | cons x xs ih => cases h : p x <;> simp [keep, h, ih]
 
 theorem assign_frame (objs : Nat → Nat) (ds xs : List Nat) (x : Nat) (h : x ∉ ds) : assign objs ds xs x = objs x := by
   induction ds generalizing objs xs with
@@ -577,15 +554,118 @@ theorem C07_check_sound (H : Nat) (before : PSt) (op : Op) (after : Nat → List
 
 /-- The property for the modelled family, in one statement.  **Partial** with respect to the property
 as stated ("every slice, map, value and struct type"): proved for generated pointer slices whose
-elements carry scalar fields; nested elements, `pcommon.Map`/`Value`/`Slice`, value slices and
-message structs with optional / one-of fields have no Lean model and are checked on the real code
-by reference-model oracles only (harnesses `tree`, `metric`, `witness`). -/
+elements carry scalar fields (here) and for `pcommon.Map` with empty / scalar / bytes values
+(`C07_map_*` below); nested elements and nested maps/arrays (deep copy by recursion through the
+heap), `pcommon.Slice`, generated value slices, primitive slices and message structs with optional /
+one-of fields have no Lean model and are checked on the real code by reference-model oracles only
+(harnesses `tree`, `metric`, `witness`). -/
 theorem C07_value_semantics_partial (prog : List Op) (s : St) (hi : Inv s) (hw : ∀ op ∈ prog, WfOp op) :
     Inv (run s prog) ∧ abs (run s prog) = prun (abs s) prog ∧
     (∀ c, (∀ op ∈ prog, c ∉ targets op) → (abs (run s prog)).val c = (abs s).val c) ∧
     (∀ a, s.ro a = true → (run s prog).ro a = true ∧ (abs (run s prog)).val a = (abs s).val a) :=
   ⟨C07_separation prog s hi hw, C07_refines prog s hi hw, fun c hc => C07_frame_run prog s hi hw c hc,
    fun a hro => C07_readonly_frozen prog s hi hw a hro⟩
+
+/-! ## part B: `pcommon.Map` with one-of wrappers (`Model/C07Map.lean`, repaired `Map.CopyTo`)
+
+Same statements for the heap model of attribute maps whose values are empty, scalar or bytes:
+`M.Inv` = the bytes wrappers reachable from live slots are pairwise distinct within and across maps
+(nothing is assumed of the slots beyond `len`, which alias live wrappers after `Remove`/`RemoveIf`). -/
+
+theorem C07_map_separation (prog : List M.Op) (s : M.St) (hi : M.Inv s) (hw : ∀ op ∈ prog, M.WfOp op) : M.Inv (M.run s prog) := by
+  induction prog generalizing s with
+  | nil => exact hi
+  | cons op ops ih =>
+    exact ih _ (M.step_spec hi op (hw op List.mem_cons_self)).1 (fun o ho => hw o (List.mem_cons_of_mem _ ho))
+
+/-- what `Range`/`Get` show after any program of Put*/Remove/RemoveIf/EnsureCapacity/Clear/CopyTo/MoveTo/
+bytes edits/MarkReadOnly is what association lists with assignment semantics give -/
+theorem C07_map_refines (prog : List M.Op) (s : M.St) (hi : M.Inv s) (hw : ∀ op ∈ prog, M.WfOp op) :
+    M.abs (M.run s prog) = M.prun (M.abs s) prog := by
+  induction prog generalizing s with
+  | nil => rfl
+  | cons op ops ih =>
+    obtain ⟨h1, h2, _⟩ := M.step_spec hi op (hw op List.mem_cons_self)
+    simp only [M.run, M.prun]
+    rw [ih _ h1 (fun o ho => hw o (List.mem_cons_of_mem _ ho)), h2]
+
+theorem C07_map_step_panics (s : M.St) (hi : M.Inv s) (op : M.Op) (hw : M.WfOp op) : (M.step s op).2 = (M.pstep (M.abs s) op).2 :=
+  (M.step_spec hi op hw).2.2
+
+theorem C07_map_copy_eq (s : M.St) (hi : M.Inv s) (a b : Nat) (hab : a ≠ b) (hro : s.ro b = false) :
+    (M.abs (M.step s (.copyTo a b)).1).val b = (M.abs s).val a ∧
+    ∀ c, c ≠ b → (M.abs (M.step s (.copyTo a b)).1).val c = (M.abs s).val c := by
+  have h := (M.step_spec hi (.copyTo a b) hab).2.1
+  rw [h]
+  have : (M.abs s).ro b = false := hro
+  simp only [M.pstep, this]
+  exact ⟨M.upd_same _ _ _, fun c hc => M.upd_other _ _ _ _ hc⟩
+
+theorem C07_map_independent (s : M.St) (hi : M.Inv s) (op : M.Op) (hw : M.WfOp op) (c : Nat) (hc : c ∉ M.targets op) :
+    (M.abs (M.step s op).1).val c = (M.abs s).val c := by
+  rw [(M.step_spec hi op hw).2.1]
+  cases op <;> simp only [M.targets, List.mem_cons, List.not_mem_nil, or_false, not_or] at hc <;>
+    simp only [M.pstep] <;> (repeat' split) <;> first
+      | rfl
+      | simp [M.upd_other _ _ _ _ hc]
+      | simp [M.upd_other _ _ _ _ hc.1, M.upd_other _ _ _ _ hc.2]
+
+theorem C07_map_frame_run (prog : List M.Op) (s : M.St) (hi : M.Inv s) (hw : ∀ op ∈ prog, M.WfOp op) (c : Nat)
+    (hc : ∀ op ∈ prog, c ∉ M.targets op) : (M.abs (M.run s prog)).val c = (M.abs s).val c := by
+  induction prog generalizing s with
+  | nil => rfl
+  | cons op ops ih =>
+    have hwo := hw op List.mem_cons_self
+    simp only [M.run]
+    rw [ih _ (M.step_spec hi op hwo).1 (fun o ho => hw o (List.mem_cons_of_mem _ ho)) (fun o ho => hc o (List.mem_cons_of_mem _ ho))]
+    exact C07_map_independent s hi op hwo c (hc op List.mem_cons_self)
+
+/-- a copied map stays equal to what its source was under any later program that does not target it:
+editing a bytes value of the source in place, overwriting a scalar with the same scalar type,
+removing, copying the source elsewhere … -/
+theorem C07_map_copy_independent (s : M.St) (hi : M.Inv s) (a b : Nat) (hab : a ≠ b) (hro : s.ro b = false) (prog : List M.Op)
+    (hw : ∀ op ∈ prog, M.WfOp op) (hc : ∀ op ∈ prog, b ∉ M.targets op) :
+    (M.abs (M.run s (.copyTo a b :: prog))).val b = (M.abs s).val a := by
+  simp only [M.run]
+  rw [C07_map_frame_run prog _ (M.step_spec hi (.copyTo a b) hab).1 hw b hc]
+  exact (C07_map_copy_eq s hi a b hab hro).1
+
+theorem C07_map_move (s : M.St) (hi : M.Inv s) (a b : Nat) (hab : a ≠ b) (hra : s.ro a = false) (hrb : s.ro b = false) :
+    (M.abs (M.step s (.moveTo a b)).1).val b = (M.abs s).val a ∧ (M.abs (M.step s (.moveTo a b)).1).val a = [] := by
+  rw [(M.step_spec hi (.moveTo a b) hab).2.1]
+  have h1 : (M.abs s).ro a = false := hra
+  have h2 : (M.abs s).ro b = false := hrb
+  simp [M.pstep, h1, h2, M.upd_same, M.upd_other _ _ _ _ (fun e => hab e.symm : b ≠ a)]
+
+theorem C07_map_remove_if (s : M.St) (hi : M.Inv s) (a : Nat) (hro : s.ro a = false) (m : List Bool) :
+    (M.abs (M.step s (.removeIf a m)).1).val a = keep ((M.abs s).val a) m := by
+  rw [(M.step_spec hi (.removeIf a m) trivial).2.1]
+  have h1 : (M.abs s).ro a = false := hro
+  simp [M.pstep, h1, M.upd_same]
+
+theorem C07_map_readonly (s : M.St) (op : M.Op) (a : Nat) (hro : s.ro a = true) (ha : a ∈ M.targets op) : M.step s op = (s, true) := by
+  cases op <;> simp only [M.targets, List.mem_cons, List.not_mem_nil, or_false] at ha <;>
+    first
+      | (subst ha; simp [M.step, hro])
+      | (rcases ha with rfl | rfl <;> simp [M.step, hro])
+      | exact absurd ha (by simp)
+
+theorem C07_map_check_sound (H : Nat) (before : M.PSt) (op : M.Op) (after : Nat → List M.Entry) (p : Bool)
+    (h : M.obsStep H before op after p = true) :
+    (M.pstep before op).2 = p ∧ ∀ a, a < H → (M.pstep before op).1.val a = after a := by
+  simp only [M.obsStep, M.eqUpTo, Bool.and_eq_true, beq_iff_eq, List.all_eq_true, List.mem_range] at h
+  exact ⟨h.1, fun a ha => h.2 a ha⟩
+
+/-- non-vacuity: `Remove` leaves a stale slot beyond `len` that aliases a live bytes wrapper; the
+repaired copy of a longer map into it is equal to its source and independent of it -/
+def mapWitness : M.St :=
+  M.run M.St.init [.putBytes 1 1 [1] 0, .putScalar 1 2 0 5 0, .putBytes 1 3 [3] 0, .remove 1 1,
+    .putBytes 0 4 [4] 0, .putScalar 0 5 0 6 0, .putBytes 0 6 [6] 0]
+
+example : (mapWitness.hd 1).live = [⟨3, .bytes 1⟩, ⟨2, .scalar 0 5⟩] ∧ (mapWitness.hd 1).tail = [⟨3, .bytes 1⟩] := by decide
+example : M.Inv mapWitness := C07_map_separation _ _ M.inv_init (by decide)
+example : (M.abs (M.run mapWitness [.copyTo 0 1, .bytesAppend 1 4 9, .bytesAppend 0 6 7])).val 1
+    = [(4, .bytes [4, 9]), (5, .scalar 0 6), (6, .bytes [6])] := by decide
 
 /-! ## tie of the read-only clause to the source (regenerated census, `Gen/PdataCensus.lean`)
 
